@@ -905,6 +905,264 @@ func caseSplit() {
 	vout.Case(true, fields...)
 }
 
+// seq: a SEQUENCE of operations on one set of buckets: reports stored, the day
+// merged and charted, then reports withdrawn / re-stored under the same name
+// (often shorter) / added, the day merged and charted AGAIN, up to three
+// rounds.  Nothing is removed by the harness between rounds: every merged and
+// chart object is rewritten in place by the real handlers, as the daily
+// re-merge of the previous 7 days does.
+func caseSeq() {
+	e := newEnv()
+	defer e.close()
+	cfg := genConfig(vrnd.Chance(8))
+	ucfg := tconfig.NewConfig(cfg)
+	start := time.Date(2024, time.Month(1+vrnd.Intn(3)), 20+vrnd.Intn(12), 0, 0, 0, 0, time.UTC)
+	ndays := 1 + vrnd.Intn(2)
+	var dates []string
+	for i := 0; i < ndays; i++ {
+		dates = append(dates, start.AddDate(0, 0, i).Format(telemetry.DateOnly))
+	}
+	end := start.AddDate(0, 0, ndays-1)
+	var xpool []float64
+	for i := 0; i < 3; i++ {
+		xpool = append(xpool, genX(nil))
+	}
+	// value table: one id per distinct canonical line
+	type val struct {
+		canon []byte
+		rep   *telemetry.Report
+	}
+	var vals []val
+	valID := map[string]int{}
+	type objEntry struct {
+		data []byte
+		id   int // -1: does not decode
+	}
+	var objTab []objEntry
+	objSeen := map[string]bool{}
+	register := func(data []byte) {
+		if objSeen[string(data)] {
+			return
+		}
+		objSeen[string(data)] = true
+		r := decodeFirst(data)
+		if r == nil {
+			objTab = append(objTab, objEntry{data, -1})
+			return
+		}
+		canon := mustJSON(*r)
+		id, ok := valID[string(canon)]
+		if !ok {
+			id = len(vals)
+			valID[string(canon)] = id
+			vals = append(vals, val{canon, r})
+		}
+		objTab = append(objTab, objEntry{data, id})
+	}
+	var ops []string
+	nops := 0
+	current := map[string][]byte{} // name -> body, the harness's own view of the upload bucket
+	put := func(name string, data []byte) {
+		w, err := e.api.Upload.Object(name).NewWriter(context.Background())
+		if err != nil {
+			panic(err)
+		}
+		w.Write(data)
+		w.Close()
+		current[name] = data
+		register(data)
+		ops = append(ops, "put", HS(name), H(data))
+		nops++
+	}
+	del := func(name string) {
+		os.Remove(filepath.Join(e.dir, "upload", filepath.FromSlash(name)))
+		delete(current, name)
+		ops = append(ops, "del", HS(name))
+		nops++
+	}
+	smallReport := func(date string, shrink bool) *telemetry.Report {
+		r := genReport(cfg, Pick(vrnd, weekPool[:4]), xpool, 0)
+		if shrink {
+			if len(r.Programs) > 1 {
+				r.Programs = r.Programs[:1]
+			}
+			for _, p := range r.Programs {
+				p.Stacks = nil
+				if len(p.Counters) > 1 {
+					for k := range p.Counters {
+						delete(p.Counters, k)
+						break
+					}
+				}
+			}
+			if vrnd.Bool() {
+				r.Programs = nil
+			}
+		}
+		return r
+	}
+	sortedNames := func(date string) []string {
+		var ns []string
+		for n := range current {
+			if strings.HasPrefix(n, date) {
+				ns = append(ns, n)
+			}
+		}
+		sort.Strings(ns)
+		return ns
+	}
+	rounds := 2 + vrnd.Intn(2)
+	shrunk := false
+	for round := 0; round < rounds; round++ {
+		for _, date := range dates {
+			if round == 0 {
+				n := 1 + vrnd.Intn(6)
+				for i := 0; i < n; i++ {
+					r := smallReport(date, false)
+					put(fmt.Sprintf("%s/%g-%d.json", date, r.X, i), genObjectBytes(r))
+				}
+				continue
+			}
+			names := sortedNames(date)
+			shrinkMode := vrnd.Chance(65)
+			changed := false
+			for _, n := range names {
+				switch k := vrnd.Intn(10); {
+				case k < 3 || (shrinkMode && !changed):
+					if vrnd.Bool() {
+						del(n) // withdrawn
+					} else {
+						put(n, append(mustJSON(smallReport(date, true)), '\n')) // re-stored shorter under the same name
+					}
+					changed = true
+					shrunk = true
+				case k < 4:
+					put(n, genObjectBytes(smallReport(date, false))) // re-stored, any length
+				}
+			}
+			if !shrinkMode {
+				for i := vrnd.Intn(3); i > 0; i-- {
+					r := smallReport(date, false)
+					put(fmt.Sprintf("%s/%g-r%d-%d.json", date, r.X, round, i), genObjectBytes(r))
+				}
+			}
+		}
+		for _, date := range dates {
+			var listing []string
+			it := e.api.Upload.Objects(context.Background(), date)
+			for {
+				n, err := it.Next()
+				if err != nil {
+					break
+				}
+				listing = append(listing, n)
+			}
+			status, body := serve(handleMerge(e.api), "/merge/?date="+date)
+			count := int64(-1)
+			if m := mergedRE.FindStringSubmatch(body); m != nil {
+				count, _ = strconv.ParseInt(m[1], 10, 64)
+			}
+			ops = append(ops, "merge", HS(date))
+			ops = append(ops, strList(listing)...)
+			ops = append(ops, status, I(count))
+			file, ferr := os.ReadFile(filepath.Join(e.dir, "merged", date+".json"))
+			if ferr != nil {
+				ops = append(ops, "nofile")
+			} else {
+				ops = append(ops, "file", H(file))
+				// the object as a stream of reports
+				dec := json.NewDecoder(bytes.NewReader(file))
+				var recs []*telemetry.Report
+				torn := false
+				for dec.More() {
+					var r telemetry.Report
+					if err := dec.Decode(&r); err != nil {
+						torn = true
+						break
+					}
+					recs = append(recs, &r)
+				}
+				if torn {
+					ops = append(ops, "stream-torn")
+				} else {
+					ops = append(ops, "stream-ok")
+				}
+				ops = append(ops, I(int64(len(recs))))
+				for _, r := range recs {
+					ops = append(ops, projTokens(r)...)
+				}
+			}
+			reps, err := readMergedReports(context.Background(), date+".json", e.api)
+			if err != nil {
+				ops = append(ops, "read-err")
+			} else {
+				ops = append(ops, "read-ok", I(int64(len(reps))))
+				for i := range reps {
+					ops = append(ops, projTokens(&reps[i])...)
+				}
+			}
+			nops++
+		}
+		if round == rounds-1 || vrnd.Chance(75) {
+			url := "/chart/?start=" + dates[0] + "&end=" + dates[ndays-1]
+			if ndays == 1 && vrnd.Bool() {
+				url = "/chart/?date=" + dates[0]
+			}
+			status, _ := serve(handleChart(ucfg, e.api), url)
+			ops = append(ops, "chart", I(dayNumber(start)), I(dayNumber(end)), status)
+			if status == "ok" {
+				ents, _ := os.ReadDir(filepath.Join(e.dir, "chart"))
+				if len(ents) != 1 {
+					ops = append(ops, "unparsable")
+				} else {
+					b, _ := os.ReadFile(filepath.Join(e.dir, "chart", ents[0].Name()))
+					var cd chartdata
+					if err := json.Unmarshal(b, &cd); err != nil {
+						ops = append(ops, "unparsable")
+					} else {
+						ops = append(ops, "chartdata", HS(ents[0].Name()))
+						ops = append(ops, chartTokens(&cd)...)
+					}
+				}
+			} else {
+				ops = append(ops, "nochart")
+			}
+			nops++
+		}
+	}
+	fields := []string{"seq"}
+	fields = append(fields, cfgTokens(cfg)...)
+	var semKeys, goKeys []string
+	for _, p := range cfg.Programs {
+		semKeys = append(semKeys, p.Versions...)
+	}
+	for _, v := range cfg.GoVersion {
+		if k, ok := safeMajorMinor(v); ok {
+			goKeys = append(goKeys, k)
+		}
+	}
+	fields = append(fields, rankTable(semKeys, compareSemver)...)
+	fields = append(fields, rankTable(goKeys, version.Compare)...)
+	fields = append(fields, I(int64(len(vals))))
+	for _, v := range vals {
+		fields = append(fields, H(v.canon))
+		fields = append(fields, projTokens(v.rep)...)
+	}
+	fields = append(fields, I(int64(len(objTab))))
+	for _, o := range objTab {
+		fields = append(fields, H(o.data), I(int64(o.id)))
+	}
+	fields = append(fields, I(int64(nops)))
+	fields = append(fields, ops...)
+	if shrunk {
+		vout.Note("seq-stored-set-shrinks-before-a-re-merge")
+	} else {
+		vout.Note("seq-stored-set-only-grows")
+	}
+	vout.Note(fmt.Sprintf("seq-%d-rounds", rounds))
+	vout.Case(true, fields...)
+}
+
 func vhMain() {
 	slog.SetDefault(slog.New(slog.NewTextHandler(io.Discard, nil)))
 	outPath := os.Args[1]
@@ -924,8 +1182,10 @@ func vhMain() {
 			caseMerge()
 		case k == 5:
 			caseReadRaw()
-		case k < 16:
+		case k < 14:
 			caseChart()
+		case k < 16:
+			caseSeq()
 		case k == 16:
 			caseChartBadRange()
 		case k == 17:
